@@ -178,7 +178,8 @@ func (rt *runtime) newError(name string, message Value, stackFramesToPop int) *o
 
 	obj := rt.newErrorObject(name, message, stackFramesToPop)
 	obj.prototype = rt.global.ErrorPrototype
-	if name != "" {
+	if name != "" && name != classErrorName {
+		// A custom error; plain Error instances inherit their name (15.11.5).
 		obj.defineProperty("name", stringValue(name), 0o111, false)
 	}
 	return obj
